@@ -195,3 +195,27 @@ Theorem C12_gen_error_container_refuted :
   gen_decode_async Sx PCompact 40 Tx (mkS bx r0) = Ok (GMap [(GUnion 1 (GI32 0), GList [GBool true])], mkS [] r0).
 Proof. exact gen_async_error_container_refuted. Qed.
 Print Assumptions C12_gen_error_container_refuted.
+
+(* ---------- the EMITTED decode_async bodies, lowered (tools/emitted_ops.py, on every run; see Properties/C02.v) ---------- *)
+From PVGen Require Import EmitOps Generated.EmittedOps Proofs.EmitTableP.
+
+(* the table lemma for decode_async, by computation, plain and keep_unknown_fields configurations: the regenerated async
+   decoder of every type of the corpus is the one the template prescribes (GenAsync.v's shape) *)
+Theorem C12_emitted_async_match :
+  aops_match schema_plain false emitted_plain_async /\ aops_match schema_keep true emitted_keep_async /\
+  length emitted_plain_async = length schema_plain /\ length emitted_keep_async = length schema_keep.
+Proof. exact emitted_async_match. Qed.
+Print Assumptions C12_emitted_async_match.
+
+(* per type: the arms of the sync decoder read with .await; no length calls, no countdown and NO retention statement -- also
+   in the keep configuration, where the sync decoder of the same type has them (the structural content of finding F-12a) *)
+Theorem C12_emitted_async_arms : forall n r ck em S,
+  (ck = false /\ em = emitted_plain_async /\ S = schema_plain) \/ (ck = true /\ em = emitted_keep_async /\ S = schema_keep) ->
+  nth_error em n = Some r ->
+  (forall fs keep ia, lookup S n = Some (DStruct fs keep ia) ->
+     exists d, r = AStruct d /\ norm_ds d = presc_dstruct_async S ck fs keep /\
+               ds_unk d = false /\ ds_push d = false /\ ds_skip_all d = false /\ ds_count d = false) /\
+  (forall vs vo keep, lookup S n = Some (DUnion vs vo keep) ->
+     exists d, r = AUnion d /\ norm_du d = presc_dunion_async S vs vo /\ du_unknown d = false).
+Proof. exact emitted_async_arms. Qed.
+Print Assumptions C12_emitted_async_arms.
